@@ -164,6 +164,7 @@ pub mod implementations {
         if let Some(name) = args.get(1) {
             let bundle = ctx
                 .load_variable(name)
+                .or_else(|| ctx.load_callback_variable(name).ok())
                 .with_context(|| format!("{name} has not been mapped"))?;
             let value: &mut Primitive = ctx
                 .get_last_op_item_mut()
